@@ -210,13 +210,30 @@ class FormattedValue(ExpressionPrinter):
         return False
 
     def visit_Str(self, node):
-        self.printer.append(str(Str(node.s, self.allowed_quotes, self.pep701)), TokenTypes.NonNumberLiteral)
+        try:
+            literal = str(Str(node.s, self.allowed_quotes, self.pep701))
+        except ValueError:
+            if not self.pep701:
+                raise
+            # Since Python 3.12 any string literal may be used in a replacement field
+            literal = repr(node.s)
+
+        self.printer.append(literal, TokenTypes.NonNumberLiteral)
 
     def visit_Bytes(self, node):
         if self.printer.previous_token in [TokenTypes.Identifier, TokenTypes.Keyword, TokenTypes.SoftKeyword]:
             # The literal starts with a 'b' prefix, which would join onto a preceding name or keyword
             self.printer.delimiter(' ')
-        self.printer.append(str(Bytes(node.s, self.allowed_quotes)), TokenTypes.NonNumberLiteral)
+
+        try:
+            literal = str(Bytes(node.s, self.allowed_quotes))
+        except Exception:
+            if not self.pep701:
+                raise
+            # Since Python 3.12 any bytes literal may be used in a replacement field
+            literal = repr(node.s)
+
+        self.printer.append(literal, TokenTypes.NonNumberLiteral)
 
     def visit_JoinedStr(self, node):
         assert isinstance(node, ast.JoinedStr)
